@@ -141,9 +141,11 @@ def oracle_sequence(sid, lines, outs):
                 if kind in ("B", "P") and not len(set(registered) | set(answering)) > replica // 2:
                     fail(cid, "removal-marked-with-majority-unreachable: reachable replicas %s of %s, replication %d" % (sorted(set(registered) | set(answering)), before["nodes"], replica),
                          dict(kind=kind, before=before, written=w, data_nodes=dn))
-            if len(w["nodes"]) < len(before["nodes"]):
+            gone = [n for n in before["nodes"] if n not in w["nodes"]]
+            if len(added) + len(gone) > 1:
+                fail(cid, "membership-step: the replica set changed by more than one member in one write", dict(kind=kind, before=before, written=w))
+            if gone:
                 stats["finishes"] += 1
-                gone = [n for n in before["nodes"] if n not in w["nodes"]]
                 if any(n not in [r[0] for r in before["rm"]] for n in gone):
                     fail(cid, "replica dropped without having been marked removing", dict(kind=kind, before=before, written=w))
             if sorted(w["nodes"]) == sorted(before["nodes"]) and w["nodes"] != before["nodes"]:
